@@ -181,7 +181,12 @@ def install_monitors(sim):
                 want = fold_members(sim, sim.ctor_members[name], cmds, name)
                 have = sim.view_members(name)
                 if want != have:
-                    sim.V('C10', 'member-set-differs-from-log', '%s holds member set %r, the membership commands in its log %r over its constructor set %r give %r' % (
+                    # known behaviour: committed membership entries are executed again at apply time; a node that a
+                    # LATER entry of the log removed (added) is then transiently re-added (re-removed)
+                    applied_cmds = [m for m in (membership_of(e[0]) for e in log[:] if e[1] <= obj.raftLastApplied) if m is not None]
+                    again = fold_members(sim, want, applied_cmds, name)
+                    sig = 'member-set-differs-from-log' + (':entry-re-executed-at-apply' if again == have and applied_cmds else '')
+                    sim.V('C10', sig, '%s holds member set %r, the membership commands in its log %r over its constructor set %r give %r' % (
                         name, sorted(have), cmds, sorted(sim.ctor_members[name]), sorted(want)))
             # leader-side gate
             if obj._isLeader() and last > prev:
@@ -224,6 +229,7 @@ def run_case(case):
         viol = None
         if not own() and not sim.viol:      # a monitor of another property stopped the case: state is tainted, no closing verdict
             sim.blocked = set()
+            sim.quiet_config()
 
             def done():
                 live = sim.live()
